@@ -350,6 +350,25 @@ def run(rep, pdb, tier):
             det = "acc starts as d=%s au is a clone of compact=%s i in 0..n=%s the factorisation runs unconditionally (no shortcut skips it for some bandwidths)=%s" % (
                 accdef == dvar or acc == dvar, au_init, r[1:4] == (num(0), N, False), uncond)
         rep.add("det", rule, ok, fn["body"], det, where=loc(fn["body"]))
+    # ---- the workspaces handed to decompose: al holds one column per sub-diagonal (n x m1), index one slot per row
+    for user in ("det", "solve"):
+        uf = pdb.fn("%s::%s" % (B, user))
+        if uf is None:
+            continue
+        cu = Ctx.for_fn(pdb, uf)
+        dcs = [n for n in walk(uf["body"]) if n.get("k") == "MethodCall" and callee_path(n) == "%s::decompose" % B]
+        okw, detw = len(dcs) == 1, "decompose calls=%d" % len(dcs)
+        if okw:
+            a_ = [cu.term(x) for x in call_args(dcs[0])]
+            def _init(t_):
+                return cu.def_term(t_) if t_[0] == "var" and cu.def_term(t_) is not None else (cu.term(cu.binds[t_[1]].init) if t_[0] == "var" and t_[1] in cu.binds and cu.binds[t_[1]].init is not None else t_)
+            al_i, ix_i = _init(a_[2]), _init(a_[3])
+            al_ok = al_i[0] == "call" and str(al_i[1]).endswith("Matrix<T>::new") and al_i[2] == N and al_i[3] == M1 and is_zero_term(al_i[4])
+            ix_ok = ix_i[0] == "call" and str(ix_i[1]).endswith("Vector<T>::new") and ix_i[2] == N
+            okw = al_ok and ix_ok
+            detw = "al = %s; index = %s" % (show(al_i, cu)[:80], show(ix_i, cu)[:60])
+        rep.add("workspace/%s" % user, "the multiplier matrix handed to decompose is n x m1 (one column per sub-diagonal eliminated; with the raw index operator a narrower one lets the multipliers of one row "
+                "spill into the next) and the exchange record has n slots", okw, dcs[0] if dcs else uf["body"], detw)
     # ---- solve replay
     fn = pdb.fn("%s::solve" % B)
     rule = "solve replays exactly the recorded exchanges (x.swap(k, index[k]-1) guarded by != k) and multipliers (al[(k, j-k-1)], the offset used by the store in decompose)"
